@@ -58,6 +58,11 @@ class BaseSection(base.Sectionable):
     _link = None
     _include = None
     _merged = None
+    # The definition and reference this Section has taken over from the Section
+    # it is merged with (attribute name -> value); they are not its own and are
+    # taken back by unmerge. The dict is replaced, never changed in place: a
+    # clone shares it with the original.
+    _merged_attrs = {}
 
     _format = fmt.Section
 
@@ -90,6 +95,7 @@ class BaseSection(base.Sectionable):
         self._repository = repository
         self._link = link
         self._include = include
+        self._merged_attrs = {}
         self._sec_cardinality = None
         self._prop_cardinality = None
 
@@ -761,10 +767,16 @@ class BaseSection(base.Sectionable):
         self.merge_check(section, strict)
         self._merge_name_check(section)
 
+        # Remember what is taken over from the merged Section: unmerge has to
+        # tell it from a definition or reference of this Section's own.
+        filled = dict(self._merged_attrs)
         if self.definition is None and section.definition is not None:
             self.definition = section.definition
+            filled["definition"] = self.definition
         if self.reference is None and section.reference is not None:
             self.reference = section.reference
+            filled["reference"] = self.reference
+        self._merged_attrs = filled
 
         for obj in section:
             mine = self.contains(obj)
@@ -785,7 +797,8 @@ class BaseSection(base.Sectionable):
     def unmerge(self, section):
         """
         Clean up a merged section by removing objects that are totally equal
-        to the linked object
+        to the linked object, and the definition and reference that merge has
+        taken over from it.
         """
         if self == section:
             raise RuntimeError("cannot unmerge myself?")
@@ -800,6 +813,14 @@ class BaseSection(base.Sectionable):
                 mine.unmerge(obj)
         for obj in removals:
             self.remove(obj)
+
+        # Take back the definition and the reference merge has filled in from
+        # the merged Section. A value that has been changed since is an edit
+        # of the user and stays.
+        for attr, value in self._merged_attrs.items():
+            if value is not None and getattr(self, attr) == value:
+                setattr(self, attr, None)
+        self._merged_attrs = {}
 
         # The path may not be valid anymore, so make sure to update it.
         # However this does not reflect changes happening while the section
